@@ -56,7 +56,7 @@ def floors(tier):
     return {"runs": 400 * k, "decided:resumes": 300 * k, "decided:warm_starts": 150 * k, "decided:deletes_before_end": 500 * k,
             "early_removals": 100 * k, "runs:delete_checkpoints": 200 * k, "runs:no_delete": 80 * k,
             "decided:sync_paused_deletes": 50 * k, "runs:early_removal_requested": 60 * k,
-            "decided:pbt_clone_source_choices": 100 * k, "runs:pause_capable_with_several_reports_per_poll": 30 * k, "runs:dehb_without_pause_resume": 15 * k, "runs:synchronous_with_stragglers": 60 * k, "runs:pbt_with_jobs_stopped_from_outside": 40 * k, "runs:pbt_with_jobs_ending_by_themselves": 40 * k,
+            "decided:pbt_clone_source_choices": 100 * k, "runs:pause_capable_with_several_reports_per_poll": 30 * k, "runs:dehb_without_pause_resume": 15 * k, "runs:synchronous_with_stragglers": 60 * k, "runs:synchronous_with_jobs_crashing_after_a_report": 40 * k, "runs:pbt_with_jobs_stopped_from_outside": 40 * k, "runs:pbt_with_jobs_ending_by_themselves": 40 * k,
             "decided:warm_starts_from_completed_trial": 5 * k, "decided:warm_starts_from_failed_trial": 5 * k, "runs:nan_reporting_trials": 25 * k, "decided:resumes_of_nan_trials": 10 * k}
 
 
@@ -93,6 +93,11 @@ def expand(spec):
         # nobody called stop_trial; the scheduler only learns of an error and may still clone from their checkpoints
         for _ in range(rng.randint(1, 3)):
             p["plan"].setdefault("ext_stop", {})[f"{rng.randint(0, 8)}:0"] = rng.randint(1, max(1, max_t - 1))
+    if kind in ("dehb", "sync_hb") and rng.random() < 0.4:
+        # jobs that crash right after (or shortly after) reporting a rung level: the result and the failed status can arrive in
+        # one poll, the scheduler has a valid rung entry for the trial and may promote it
+        for _ in range(rng.randint(1, 4)):
+            p["plan"].setdefault("fail", {})[f"{rng.randint(0, 11)}:0"] = rng.choice([1, 1, 2, 3])
     if kind in ("dehb", "sync_hb") and rng.random() < 0.6:
         # stragglers: some jobs make progress in few polls only, so that rungs of different brackets complete out of step
         p["plan"]["slow"] = {str(rng.randint(0, 14)): rng.choice([0.05, 0.1, 0.25]) for _ in range(rng.randint(1, 4))}
@@ -164,12 +169,16 @@ def run_case(spec):
                     if e[1] == "b.copy_checkpoint.raise":
                         tag = ":copy_checkpoint_of_deleted_checkpoint"
                         break
+            if "Cannot resume trial_id" in msg and "'Failed'" in msg:
+                tag = ":resume_of_failed_trial"  # the scheduler promotes a trial whose job has failed (C13-K2 seen from here)
             o.violate("run_completes", f"{kind}:tuner_run_raised:{type(r.exc).__name__}{tag}", {"error": msg})
     o.count("runs:delete_checkpoints" if p["delete_checkpoints"] else "runs:no_delete")
     if simrun.pause_capable(kind) and not p["use_mra"] and p["plan"].get("burst", 1) > 1:
         o.count("runs:pause_capable_with_several_reports_per_poll")
     if p["plan"].get("ext_stop"):
         o.count("runs:pbt_with_jobs_stopped_from_outside")
+    if kind in ("dehb", "sync_hb") and p["plan"].get("fail"):
+        o.count("runs:synchronous_with_jobs_crashing_after_a_report")
     if p["plan"].get("slow"):
         o.count("runs:synchronous_with_stragglers")
     if kind == "pbt" and (p["plan"].get("short") or p["plan"].get("fail")):
